@@ -323,6 +323,10 @@ func TestC17Sync(t *testing.T) {
 	defer func() { dfltTimeout = savedTimeout }()
 	rapid.Check(t, func(t *rapid.T) {
 		common := rapid.IntRange(0, 12).Draw(t, "commonHeight")     // highest shared block
+		if rapid.IntRange(0, 9).Draw(t, "longChain") < 2 {
+			// a chain longer than the span of the anchors (32 anchors, 16 blocks apart): the lowest anchor is not genesis
+			common = 497 + rapid.IntRange(0, 40).Draw(t, "commonAboveAnchorSpan")
+		}
 		localExtra := rapid.IntRange(0, 8).Draw(t, "localExtra")    // local blocks above it
 		remoteExtra := rapid.IntRange(1, 40).Draw(t, "remoteExtra") // remote blocks above it
 		base := chain.InitStubBlockChain(nil, common+1)
@@ -371,7 +375,7 @@ func TestC17Sync(t *testing.T) {
 		if lossOnly {
 			drawList("blocks", []string{"never", "never", "late"})
 		} else {
-			drawList("ancestor", []string{"stale"})
+			drawList("ancestor", []string{"stale", "nil"})
 			drawList("hashbyno", []string{"err", "late"})
 			drawList("hashes", []string{"err", "short", "stale", "hole", "fork-switch"})
 			drawList("blocks", []string{"err", "short", "extra", "unlinked", "foreign", "never", "late", "late", "stale"})
@@ -438,8 +442,11 @@ func TestC17Sync(t *testing.T) {
 			if int(run.ancestor.No) > common || !bytes.Equal(run.ancestor.Hash, remote.Hashes[run.ancestor.No]) || !bytes.Equal(run.ancestor.Hash, base.Hashes[run.ancestor.No]) {
 				t.Fatalf("the ancestor %d/%x is not a block that both chains share (highest shared block: %d)\n%s", run.ancestor.No, run.ancestor.Hash[:4], common, where)
 			}
-			if (cfg.useFullScanOnly || honestMiss) && int(run.ancestor.No) != common {
-				t.Fatalf("the full scan determined ancestor %d but the highest shared block is %d\n%s", run.ancestor.No, common, where)
+			// the quick comparison found none: because the remote chain has none of the anchors, or because the answer
+			// of the remote peer said so (a busy peer's error status reaches the finder as "no ancestor")
+			quickNone := honestMiss || run.faults["ancestor:nil"] > 0
+			if (cfg.useFullScanOnly || quickNone) && int(run.ancestor.No) != common {
+				t.Fatalf("the quick anchor comparison found none (remote chain has none of the anchors: %v, answered 'none': %d) and the full scan determined ancestor %d, but the highest shared block is %d\n%s", honestMiss, run.faults["ancestor:nil"], run.ancestor.No, common, where)
 			}
 		}
 		// ---- exactly one end, success iff the target was reached
